@@ -572,7 +572,7 @@ func runC14(c *Ctx) {
 
 func init() {
 	Register(&Monitor{ID: "C14", Run: func(c *Ctx) {
-		c.Rule = "Decimal operations executed on the real type and compared with math/big.Rat arithmetic; String() judged by the independent Ion text lexer and by ParseDecimal(String()). Exhaustive small grid (all ordered pairs), exponent-gap sweep 0..80, Truncate sweep, formatting sweep over digit count x scale x sign, random 300-digit operands across the int32 exponent range, and a grid with both operands within 40 of MaxInt32 / MinInt32 (every operation whose exact result still has an int32 exponent; an operation on such operands that has not returned after two minutes is reported as not returning). Non-trivial: operands differ in exponent, or a shift/precision argument is effective, or a formatting case; distinct by (op, operands, argument)."
+		c.Rule = "Decimal operations executed on the real type and compared with math/big.Rat arithmetic; String() judged by the independent Ion text lexer and by ParseDecimal(String()). Exhaustive small grid (all ordered pairs), exponent-gap sweep 0..80, Truncate sweep, formatting sweep over digit count x scale x sign, random 300-digit operands across the int32 exponent range, and a grid with both operands within 40 of MaxInt32 / MinInt32 (every operation whose exact result still has an int32 exponent; an operation on such operands that has not returned after two minutes is reported as not returning). Cmp and Equal also between a value and values derived from it (shifted, negated, copied) and between decimals built around one big.Int of the caller, zero and negative zero included. Non-trivial: operands differ in exponent, or a shift/precision argument is effective, or a formatting case; distinct by (op, operands, argument)."
 		c.Assume("domain: results representable (exponent sums within int32, |exponent difference| <= 2000 so exact results stay materialisable)")
 		runC14(c)
 	}, Replay: func(c *Ctx, v *Violation) string {
